@@ -194,6 +194,25 @@ def gen_cases(tier, rng):
     return C
 
 
+BIG_OPS = ["psum32", "psum64", "gather32", "gatherf", "gather64", "gatherd", "bssef", "bssdf", "bssed", "bssdd", "unpackb", "packb",
+           "runlen", "crc32c", "mcopy", "mlen", "nonnull", "nullbm", "filldef", "mset", "mcpy"]
+BIG_COUNTS = [2**15 - 1, 2**15, 2**16 - 1, 2**16, 2**16 + 1, 2**18 - 1, 2**18, 2**18 + 9, 2**19, 2**20 + 3]
+BIG_PATTERNS = ["dense", "sparse", "every8"]
+
+
+def gen_big_cases():
+    """large-count stream: every kernel whose result or loop structure depends on count x counts around 2^15 .. 2^20 x
+    dense / sparse / every-8th data (generated inside the driver from pattern + seed).  The Coq kernel theorems cover every
+    count in the model; this stream is what ties large counts (lane counters, accumulators, index arithmetic) to the C code."""
+    cs = [(op, "%d %s %d" % (n, pat, vlib.SEED), True, "sp") for n in BIG_COUNTS for pat in BIG_PATTERNS for op in BIG_OPS]
+    random.Random(vlib.SEED).shuffle(cs)        # spread the expensive counts over the shards
+    return cs
+
+
+def big_line(c, variants, aligns):
+    return "big %s %s %s %s" % (c[0], variants, aligns, c[1])
+
+
 def case_line(c, variants, aligns):
     return "%s %s %s %s" % (c[0], variants, aligns, c[1])
 
@@ -300,7 +319,8 @@ def parse_dispatch_line(s):
 
 def check_dispatcher(rep, tier, rng, an, summary, drv, run_):
     detected = an["detected"]
-    slots, knames = summary["Dispatch_slot_names"], summary["Dispatch_kernel_names"]
+    slots = an["dispatch"]["slots"]
+    knames = summary["Dispatch_kernel_names"] if summary else None
     relevant = sorted({f for feats, _ in an["dispatch"]["blocks"] for f in feats}, key=detected.index)
     masks = []
     if tier == "thorough":
@@ -335,7 +355,8 @@ def check_dispatcher(rep, tier, rng, an, summary, drv, run_):
     with ThreadPoolExecutor(vlib.NCPU) as ex:
         impl = list(ex.map(one, masks))
     bits_of = lambda caps: "".join("1" if f in caps else "0" for f in detected)
-    model, _ = run_sharded(run_, ["dispatch " + bits_of(set(m) & hostset) for m in masks])
+    model = (run_sharded(run_, ["dispatch " + bits_of(set(m) & hostset) for m in masks])[0] if knames
+             else ["SKIP"] * len(masks))
     nviol = 0
     for feats, a, b in zip(masks, impl, model):
         eff = set(feats) & hostset
@@ -373,7 +394,9 @@ def check_dispatcher(rep, tier, rng, an, summary, drv, run_):
             rep.tie_broken("dispatch table read by the translator does not predict the implementation under %s: %s"
                            % (key, {s: (sel.get(s), want[s]) for s in slots if sel.get(s) != want[s]}), key)
         _, msel = parse_dispatch_line(b)
-        if msel is None:
+        if knames is None:
+            pass            # Gen/*.v could not be regenerated: the extracted model is stale, not compared
+        elif msel is None:
             rep.tie_broken("model runner failed on %s: %s" % (key, b[:200]), key)
         else:
             mm = {slots[int(i)]: (knames[int(k)] if k != "none" else None) for i, k in msel.items()}
@@ -462,6 +485,25 @@ def check_kernels(rep, tier, rng, an, drv, drv_plain, run_, relevant):
         lines = [case_line(c, "dispatch", "s2:%d" % (vlib.SEED + len(mask))) for c in csd]
         outs, crashes = run_resilient(drv, lines, env=mask_env(mask))
         judge("san", mask, lines, outs, crashes, csd)
+    # 4. large counts: all variants on both builds, then the dispatcher entry points under masks
+    big = gen_big_cases()
+    al = "s6:%d" % vlib.SEED if tier == "thorough" else "s1:%d" % vlib.SEED
+    lines = [big_line(c, "all", al) for c in big]
+    outs, crashes = run_resilient(drv, lines)
+    judge("san", None, lines, outs, crashes, big)
+    if tier == "thorough":
+        outs, crashes = run_resilient(drv_plain, lines)
+        judge("plain", None, lines, outs, crashes, big)
+        bmasks, bsel = mlist, [c for c in big if c[0] in dops]
+    else:
+        lad = ["sse2", "sse41", "sse42", "avx", "avx2", "avx512f", "avx512bw", "avx512vl", "avx512vbmi"]
+        bmasks = [[f for f in m if f in det] for m in ([], lad[:4], lad[:5])]
+        bsel = [c for i, c in enumerate(big) if c[0] in dops and (i + vlib.SEED) % 2 == 0]
+    for mask in bmasks:
+        lines = [big_line(c, "dispatch", "s1:%d" % (vlib.SEED + 3)) for c in bsel]
+        outs, crashes = run_resilient(drv, lines, env=mask_env(mask))
+        judge("san", mask, lines, outs, crashes, bsel)
+    rep.cov["large_count_cases"] = {"ops": len(BIG_OPS), "counts": BIG_COUNTS, "patterns": BIG_PATTERNS, "lines": len(big), "masks": len(bmasks)}
     rep.cov["dispatch_masks_differential"] = len(mlist)
     rep.cov["input_distribution"] = dist
     rep.sample({"op": cs[5][0], "case": case_line(cs[5], "all", aligns)[:300]})
@@ -575,15 +617,23 @@ def run(tier):
     rep.cov["rule"] = ("every kernel x every count 0..N (N = 4 vector widths + 3 of the widest variant) x value patterns (random, boundary, "
                        "wrap-around) x variants {scalar, sse, avx2, avx512, dispatch} x src/dst misalignments (quick: (0,0), (max,max) and 6 "
                        "random pairs of 0..63; thorough: all legal pairs), plus dispatch entry points under capability masks and the "
-                       "selection under masks (quick: all combinations of the features the table tests + 24 random; thorough: all 2^9); "
+                       "selection under masks (quick: the 12 realistic sets + all combinations of the features the table tests + 16 random; thorough: all 2^9); "
+                       "plus a large-count stream (21 kernels x counts 2^15-1 .. 2^20+3 x dense/sparse/every-8th data generated in the driver, all variants, "
+                       "dispatcher under masks); "
                        "one evaluation = one case line on one build/mask (each line is many kernel calls); non-trivial = count > 0")
+    mod = _translator()
+    summary = None
     try:
-        mod = _translator()
         an = mod.analyse(vlib.REPO)
         summary = mod.generate(vlib.REPO, vlib.COQ / "theories" / "Gen")
     except Exception as e:
+        # tie (a) is broken (already reported by prelude); keep searching for a concrete failing input with what can still be read
         rep.tie_broken("translator failed: %s" % e)
-        return rep.finish()
+        try:
+            an = mod.analyse(vlib.REPO, strict=False)
+        except Exception:
+            an = {"dispatch": None, "inventory": {}, "flags": {}, "errors": [str(e)],
+                  "detected": ["sse2", "sse41", "sse42", "avx", "avx2", "avx512f", "avx512bw", "avx512vl", "avx512vbmi"]}
     try:
         drv = build_driver("h_simd")
         drv_plain = build_driver("h_simd", flavour="plain")
@@ -591,7 +641,10 @@ def run(tier):
     except vlib.BuildError as e:
         rep.tie_broken("harness does not build against the current tree: " + str(e)[:800])
         return rep.finish()
-    relevant = check_dispatcher(rep, tier, rng, an, summary, drv, run_)
+    if an["dispatch"] is not None:
+        relevant = check_dispatcher(rep, tier, rng, an, summary, drv, run_)
+    else:
+        relevant = ["sse42", "avx2", "avx512f", "avx512bw", "avx512vl"]
     check_kernels(rep, tier, rng, an, drv, drv_plain, run_, relevant)
     check_intrinsics(rep, tier, rng, drv, run_)
     rep.cov["kernel_status"] = KERNEL_STATUS_NOTE
